@@ -1460,6 +1460,29 @@ func c12failedInit(rep *vh.Report, r *vh.RNG) {
 			for _, g := range left {
 				rep.Violation("what=init-leak:"+c.name, "a failed Initialize left a goroutine behind: "+topFrame(g), map[string]interface{}{"case": c.name, "goroutine": g})
 			}
+			// the application corrects its configuration and tries again ON THE SAME Node value: that life starts, works and
+			// closes like any other
+			tr2 := fake.NewTransport("fi-retry")
+			node.Endpoints = []gomavlib.EndpointConf{gomavlib.EndpointCustom{ReadWriteCloser: tr2}, good[1], good[2]}
+			node.Dialect = testDialect
+			if err := node.Initialize(); err != nil {
+				rep.Violation("what=init-leak:"+c.name+":retry", "after a failed Initialize the same Node value could not be initialised with a corrected configuration: "+err.Error(), wit)
+				continue
+			}
+			rep.Count("nodes_initialised_again_after_a_failed_initialize", 1)
+			go func(n *gomavlib.Node) {
+				for range n.Events() {
+				}
+			}(node)
+			_ = node.WriteMessageAll(&MessageVfUid{Uid: 1})
+			cdone := make(chan struct{})
+			go func() { node.Close(); close(cdone) }()
+			select {
+			case <-cdone:
+			case <-time.After(10 * time.Second):
+				rep.Violation("what=close-stuck@retry-after-failed-init", "Node.Close did not return within 10 s on a node that was initialised successfully after an earlier Initialize of the same value had failed ("+c.name+")", wit)
+				return
+			}
 		}
 	}
 }
